@@ -404,6 +404,8 @@ pub fn run(o: &Opts) -> i32 {
             more.push(format!("{} -> {}", v, m));
         }
     }
+    // approximate numerals in every base
+    for b in 2..=36 { for v in ["pi", "1/3", "2^0.5", "1/7", "-e", "1e30/7"] { more.push(format!("{} -> base {}", v, b)); } more.push(format!("pi -> base {} digits 25", b)); }
     for d in ["now", "#2000-01-01 00:00 Asia/Tokyo#", "#262142-12-31 23:59#", "#-262143-01-01#", "#0001-01-01#", "#9999-12-31 23:59:59#"] {
         for k in ["1 hour", "1e3 years", "1e5 years", "262000 years", "263000 years", "3e5 years", "1e6 years", "1e8 years", "2.9e8 years", "2.93e8 years", "1e9 years", "1e-9 s", "9223372036854775 s", "9223372036854776 s"] {
             more.push(format!("{} + {}", d, k)); more.push(format!("{} - {}", d, k)); more.push(format!("{} + {}", k, d));
